@@ -243,7 +243,8 @@ class Run(RunBase):
         k = op["op"]
         part = {"lanelet": "L", "sign": "S", "light": "T", "intersection": "I"}
         if k == "sc_remove_intruder":
-            return len(op["ids"]) > 0 and len(set(op["ids"])) == len(op["ids"]) and all(i in a["L"] for i in op["ids"])
+            return len(op["ids"]) > 0 and len(set(op["ids"])) == len(op["ids"]) and \
+                all(i in a[part[op.get("kind", "lanelet")]] for i in op["ids"])
         if k == "net_remove_absent":
             return op["id"] not in a[part[op["kind"]]]
         if k in ("net_remove", "sc_remove"):
@@ -438,20 +439,32 @@ class Run(RunBase):
         """Scenario.remove_lanelet with a list that contains a lanelet which is NOT in the network: the call may fail
         half-way.  Whatever it removed, no remaining element may refer to a removed id and nothing else may change."""
         ids = op["ids"]
-        objs = [self._find("lanelet", i) for i in ids]
-        intruder = build.build_lanelet({"id": 9000 + op.get("n", 0), "left": [[900, 1], [910, 1]],
-                                        "center": [[900, 0], [910, 0]], "right": [[900, -1], [910, -1]]})
+        kind = op.get("kind", "lanelet")
+        objs = [self._find(kind, i) for i in ids]
+        if kind == "lanelet":
+            intruder = build.build_lanelet({"id": 9000 + op.get("n", 0), "left": [[900, 1], [910, 1]],
+                                            "center": [[900, 0], [910, 0]], "right": [[900, -1], [910, -1]]})
+        elif kind == "sign":
+            intruder = build.build_sign({"id": 9000 + op.get("n", 0), "elems": [{"id": "MAX_SPEED", "vals": ["10"]}]})
+        else:
+            intruder = build.build_light({"id": 9000 + op.get("n", 0)})
         objs.insert(op["pos"] % (len(objs) + 1), intruder)
         ref = bool(op.get("ref", True))
-        self.last = f"Scenario.remove_lanelet[list with a foreign lanelet,ref={ref}]"
+        self.last = f"Scenario.remove_lanelet[list with a foreign lanelet,ref={ref}]" if kind == "lanelet" else \
+            f"Scenario.remove_traffic_{kind}[list with a foreign {kind}]"
         self.faults["F-midbatch"] += 1
         try:
-            self.sc.remove_lanelet(objs, referenced_elements=ref)
+            if kind == "lanelet":
+                self.sc.remove_lanelet(objs, referenced_elements=ref)
+            elif kind == "sign":
+                self.sc.remove_traffic_sign(objs)
+            else:
+                self.sc.remove_traffic_light(objs)
             raised = None
         except Exception as e:  # noqa
             raised = type(e).__name__
         remaining = {la.lanelet_id for la in self.net.lanelets}
-        gone = [i for i in ids if i not in remaining]
+        gone = [i for i in ids if i not in remaining] if kind == "lanelet" else []
         signs_now = {x.traffic_sign_id for x in self.net.traffic_signs}
         lights_now = {x.traffic_light_id for x in self.net.traffic_lights}
         for x in sorted(set(self.m.a["S"]) - signs_now):
@@ -583,10 +596,10 @@ def _remover(rng, run, cfg):
             continue
         kind = rng.pick(kinds)
         ids = sorted(a[part[kind]])
-        if kind == "lanelet" and rng.chance(0.06):
+        if kind in ("lanelet", "sign", "light") and rng.chance(0.06 if kind == "lanelet" else 0.12):
             n = rng.randint(1, min(3, len(ids)))
             yield {"op": "sc_remove_intruder", "ids": rng.sample(ids, n), "pos": rng.randrange(4),
-                   "ref": rng.chance(0.6)}
+                   "ref": rng.chance(0.6), "kind": kind}
             continue
         if rng.chance(0.08):
             gone = rng.choice([x for x in range(1, 130) if x not in a[part[kind]]])
